@@ -202,7 +202,18 @@ def scenario(sh: Shard, seed, idx, action, t_crash, shape, regime, suspend):
                 else:
                     pass
             finally:
-                await man.__aexit__(None, None, None)
+                # leaving the context must itself end: it waits for every task of the farm, so a task
+                # that survives its cancellation makes it wait for ever
+                ex = asyncio.ensure_future(man.__aexit__(None, None, None))
+                await asyncio.wait({ex}, timeout=600)
+                if not ex.done():
+                    alive_ = [t.get_name() for t in lib_tasks(loop)]
+                    out["problems"].append(("C10:exit:never-returns", f"the manager context had not been left 600 virtual seconds after __aexit__ was entered; library tasks still alive: {alive_}"))
+                    out["exit_hung"] = True
+                elif ex.exception() is not None:
+                    raise ex.exception()
+            if out.get("exit_hung"):
+                return
             wat.retire_all()
             for _ in range(3):
                 await asyncio.sleep(0)
